@@ -46,6 +46,7 @@ def run(ctx):
     a_predefined_table(ctx)
     b_postprocess_total(ctx)
     b_guards_live(ctx)
+    g_waiter_woken_at_end(ctx)
     b_dynamic_flow_bounded(ctx)
 
 
@@ -806,6 +807,42 @@ def _may_return_none(fn):
     if not isinstance(last, (ast.Return, ast.Raise)):
         return True
     return False
+
+
+STREAMING = "nemoguardrails/streaming.py"
+
+
+def g_waiter_woken_at_end(ctx):
+    """Single call + streaming: generate_user_intent starts the LLM call in a task and awaits `wait_top_k_nonempty_lines(k=2)`, i.e. the event `top_k_nonempty_lines_event`.
+    While the handler buffers, that event is set only once MORE than k non-empty lines have arrived.  An LLM answer with fewer lines (no bot message line, an empty answer) must
+    therefore set it when the call ENDS - otherwise the turn never completes (F146).  Decided: with `self.enable_buffer` true, every path through on_llm_end sets the event."""
+    from ..source import find_class
+    t = ctx.tree.ast(STREAMING)
+    cls = find_class(t, "StreamingHandler")
+    end = next((f for f in (cls.body if cls else []) if isinstance(f, (ast.AsyncFunctionDef, ast.FunctionDef)) and f.name == "on_llm_end"), None)
+    waiter = next((f for f in (cls.body if cls else []) if isinstance(f, (ast.AsyncFunctionDef, ast.FunctionDef)) and f.name == "wait_top_k_nonempty_lines"), None)
+    if end is None or waiter is None:
+        raise AnalysisError("StreamingHandler.on_llm_end / wait_top_k_nonempty_lines not found", anchor=STREAMING + "::StreamingHandler.on_llm_end")
+    ev = [src(c.func.value.value) for c in ast.walk(waiter) if isinstance(c, ast.Call) and isinstance(c.func, ast.Attribute) and c.func.attr == "wait" and isinstance(c.func.value, ast.Attribute)]
+    if not ev:
+        raise AnalysisError("wait_top_k_nonempty_lines no longer waits on an event", anchor=STREAMING + "::StreamingHandler.wait_top_k_nonempty_lines")
+    evname = ev[0] + "." + [c.func.value.attr for c in ast.walk(waiter) if isinstance(c, ast.Call) and isinstance(c.func, ast.Attribute) and c.func.attr == "wait" and isinstance(c.func.value, ast.Attribute)][0]
+    cfg = CFG(end)
+    sets = [n for n in cfg.nodes if n.ast is not None and any(isinstance(c, ast.Call) and src(c.func) == evname + ".set" for c in walk_no_nested(n.ast))]
+    facts = {"self.enable_buffer": True}
+    seen, stack = set(), [cfg.entry]
+    while stack:
+        x = stack.pop()
+        if x in seen or x in sets or x is cfg.raise_exit:
+            continue
+        seen.add(x)
+        tv = cond_truth(x.ast, facts) if x.kind == "test" and isinstance(x.ast, ast.expr) else None
+        stack.extend(m for m, lab in x.succ if not (tv is not None and lab in (True, False) and lab is not tv))
+    ok = cfg.exit not in seen
+    ctx.check("C17.g.waiter-woken-at-end", STREAMING, "StreamingHandler.on_llm_end", "end of the LLM call wakes the waiter for the first lines", ok,
+              "while buffering, every path through on_llm_end sets `%s`" % evname if ok else
+              "while the handler buffers, on_llm_end can return without setting `%s`: an LLM answer with at most k non-empty lines (no bot message line, an empty completion) leaves "
+              "wait_top_k_nonempty_lines - and with it generate_async - waiting for ever" % evname, line=end.lineno)
 
 
 def b_guards_live(ctx):
